@@ -223,6 +223,8 @@ def run_case(case):
         corrupt_sets = list(subsets([f for f in files if f in universe or cfg["shape"] != "files"]))
     for corrupt in corrupt_sets:
         fails = list(subsets(cands)) if not corrupt else list(subsets(cands, 1))
+        if cfg["scenario"] == "special":
+            fails = list(subsets(cands, 1))
         for fail in fails:
             viol, info = one_exec(cfg, list(fail), list(corrupt))
             res["n"] += 1
@@ -362,6 +364,15 @@ def fetch_case(case):
     return res
 
 
+def configs_special():
+    # special file names; two objects sharing the fan-out prefix under verify with corrupt sources
+    for shape in ("closed", "expanded"):
+        for dest in ("base", "local"):
+            yield {"scenario": "special", "shape": shape, "src": "complete", "dest0": "empty", "dest": dest, "verify": False}
+            yield {"scenario": "twins", "shape": shape, "src": "complete", "dest0": "empty", "dest": dest, "verify": True}
+            yield {"scenario": "twins", "shape": shape, "src": "complete", "dest0": "partial", "dest": dest, "verify": True}
+
+
 def configs_enoent():
     # uploads failing with FileNotFoundError although the source object exists
     for s in ("one", "sharing"):
@@ -390,6 +401,7 @@ def run(ctx):
                 "stale_index_histories", "fetch_level_runs")
     cs = [{"cfg": c} for c in configs(ctx.tier)] + [{"cfg": c} for c in configs_enoent()]
     cs += [{"cfg": c} for c in configs_hardlink()]
+    cs += [{"cfg": c} for c in configs_special()]
     cs += [{"part": "fetch", "scenario": s_} for s_ in ("one", "sharing")]
     cs += [{"part": "hist", "dest": d} for d in ("base", "local")]
     ctx.run_cases("run_case", cs, chunksize=1, det=4)
